@@ -156,7 +156,25 @@ impl S {
             S::TypeRenameValue(n, x, y) => Type::alter().name(a(n)).rename_value(a(x), a(y)).to_string(PostgresQueryBuilder),
             S::TypeDrop(ns, ie, opt) => {
                 let mut t = Type::drop();
-                t.names(ns.iter().map(|n| a(n)));
+                // the list accumulates over name() / names() calls in any split
+                match (ns.len(), crate::apply::route(3)) {
+                    (k, 0) if k >= 2 => {
+                        t.name(a(&ns[0]));
+                        t.names(ns[1..].iter().map(|n| a(n)));
+                    }
+                    (k, 1) if k >= 2 => {
+                        t.names(ns[..k - 1].iter().map(|n| a(n)));
+                        t.names(ns[k - 1..].iter().map(|n| a(n)));
+                    }
+                    (_, 2) => {
+                        for n in ns {
+                            t.name(a(n));
+                        }
+                    }
+                    _ => {
+                        t.names(ns.iter().map(|n| a(n)));
+                    }
+                }
                 if *ie {
                     t.if_exists();
                 }
